@@ -41,6 +41,9 @@ def cases(tier, seed):
         for a in ("example_plt_2d", "example_plt_3d", "plt1_Y", "plt2_F", "plt_eb_3d"):
             cs.append({"asset": a})
         cs.append({"kind": "repo_suite"})
+    # scale: 1296 boxes at a level (2D), 343 (3D), ~ 96 binary files
+    for k, nd in enumerate((2, 3)):
+        cs.append({"scale": "manyboxes", "gen": dict(seed=seed + 7170 + k, ndims=nd, nfields=2), "fmt": {}})
     return cs
 
 
